@@ -10,14 +10,14 @@ from . import core
 RUN_NO = [0]
 
 
-def mc_cfg(maxops, universe, undo=True):
+def mc_cfg(maxops, universe, undo=True, incall=False):
     u = ", ".join(f'"{p}"' for p in universe)
-    return (f"INIT InitX\nNEXT Next\nCONSTANTS MaxOps = {maxops}  UndoOnRefusal = {'TRUE' if undo else 'FALSE'}  "
+    return (f"INIT InitX\nNEXT Next\nCONSTANTS MaxOps = {maxops}  UndoOnRefusal = {'TRUE' if undo else 'FALSE'}  InCall = {'TRUE' if incall else 'FALSE'}  "
             f"Universe = {{{u}}}\nCONSTRAINT Collect\nPOSTCONDITION Report\nCHECK_DEADLOCK FALSE\n")
 
 
-def explore(out, maxops, universe, name):
-    r = core.run_tlc("LifeMechMC", mc_cfg(maxops, universe), workers=1, timeout=1200)
+def explore(out, maxops, universe, name, incall=False):
+    r = core.run_tlc("LifeMechMC", mc_cfg(maxops, universe, incall=incall), workers=1, timeout=1200)
     out.add_tlc(name, r)
     hists = [t[1] for t in r.tagged("HIST")]
     sigs = {t[1]: t[2] for t in r.tagged("SIGNATURE")}
